@@ -22,6 +22,7 @@ type VTimer struct {
 
 type clockState struct {
 	now    int64
+	tick   int64 // while exploring: every reading of the clock is one nanosecond later than the previous one
 	timers [256]*VTimer
 	n      int
 	seq    int
@@ -29,6 +30,8 @@ type clockState struct {
 }
 
 var clk clockState
+
+const clockObj = ^uintptr(0) - 7
 
 //go:norace
 func clockReset() {
@@ -45,6 +48,16 @@ func Now() time.Time {
 	if s.mode != Controlled {
 		return time.Now()
 	}
+	if s.exploring {
+		// in the concurrent phase the stamps follow the order in which the threads read the clock, as real stamps do
+		// (otherwise all of them tie and e.g. the LRU order would be an artefact); the clock is then a shared object
+		// for the happens-before bookkeeping
+		clk.tick++
+		if s.hb && s.cur != nil {
+			noteEvent(s.cur, OpYield, clockObj, 0, 0)
+		}
+		return time.Unix(0, clk.now+clk.tick).UTC()
+	}
 	// UTC location on purpose: a real time.Now() carries a monotonic reading and is therefore never
 	// `==` to a file's ModTime() even at the same instant; a virtual Now() in the Local location
 	// would be, and olareg compares `dr.timeMod == stat.ModTime()`. Equal/Before/After/Sub are unaffected.
@@ -52,7 +65,7 @@ func Now() time.Time {
 }
 
 //go:norace
-func NowNanos() int64 { return clk.now }
+func NowNanos() int64 { return clk.now + clk.tick }
 
 // NewVTimer registers a virtual timer. f != nil: AfterFunc style; otherwise a value is sent on C.
 //
@@ -230,9 +243,21 @@ func PendingTimers() []TimerInfo {
 // ---- deterministic randomness ----------------------------------------------------------------
 
 var randCtr [MaxThreads]uint32
+var tempCtr [MaxThreads]uint32
+
+// TempSeq identifies the next temporary file of the calling thread: (thread identity, per-thread counter).
+// Names built from it never collide and never repeat within an execution, like the random names of the real
+// os.CreateTemp, and do not depend on the interleaving.
+//
+//go:norace
+func TempSeq() (uint64, uint32) {
+	t := s.cur
+	tempCtr[t.id]++
+	return t.path, tempCtr[t.id]
+}
 
 //go:norace
-func randReset() { randCtr = [MaxThreads]uint32{} }
+func randReset() { randCtr = [MaxThreads]uint32{}; tempCtr = [MaxThreads]uint32{} }
 
 // RandRead fills b with bytes that depend only on the calling thread's identity and on how
 // many times that thread has asked before: independent of the interleaving.
